@@ -5,6 +5,7 @@ import (
 	"fmt"
 	"sort"
 	"strings"
+	"time"
 
 	"github.com/smart-core-os/sc-golang/pkg/resource"
 )
@@ -14,7 +15,7 @@ import (
 // and Pull are given the same options and must mean the same by them.
 
 func init() {
-	register(&Scenario{Name: "incl-twice", Prop: "C08", Doc: "a Collection read with two WithInclude options (random predicate tables over (id, value)): one writer (add / upsert / delete), 1-2 subscribers (backpressured or not, seeded) opened before or between the writes; at quiescence the folded stream equals List with the same two options",
+	register(&Scenario{Name: "incl-twice", Prop: "C08", Doc: "a Collection read with two WithInclude options (random predicate tables over (id, value)): one writer (add / upsert / delete), 1-2 subscribers (backpressured or not, seeded; a backpressured one may take six seconds of fake time over every event) opened before or between the writes; at quiescence the folded stream equals List with the same two options",
 		Run:  inclTwiceRun,
 		Real: []string{"pkg/resource Collection (WithInclude, List, Pull)"}, Stub: []string{"writer/consumer tasks"}})
 }
@@ -35,6 +36,7 @@ func inclTwiceRun(w *World) {
 		*subscriber
 		p1, p2 *inclTable
 		openAt int
+		slow   bool // (backpressured only) takes six seconds of fake time over every event: the writers wait for it
 	}
 	nops := 1 + t.Choose(8)
 	var subs []*sub
@@ -48,7 +50,7 @@ func inclTwiceRun(w *World) {
 		}
 		ctx, cancel := context.WithCancel(context.Background())
 		sc := subCfg{Backpressure: t.Flag(1, 2), Include: p1, Include2: p2}
-		subs = append(subs, &sub{subscriber: &subscriber{name: fmt.Sprintf("s%d", i), cfg: sc, ctx: ctx, cancel: cancel}, p1: p1, p2: p2, openAt: t.Choose(nops + 1)})
+		subs = append(subs, &sub{subscriber: &subscriber{name: fmt.Sprintf("s%d", i), cfg: sc, ctx: ctx, cancel: cancel}, p1: p1, p2: p2, openAt: t.Choose(nops + 1), slow: sc.Backpressure && i == 0 && t.Flag(1, 3)})
 	}
 	open := func(pos int) {
 		for _, s := range subs {
@@ -62,6 +64,9 @@ func inclTwiceRun(w *World) {
 					task.Yield("recv")
 					if !s.recv(w) {
 						return
+					}
+					if s.slow {
+						task.Sleep(6 * time.Second)
 					}
 				}
 			})
